@@ -266,12 +266,20 @@ func H_C17_CallSites() {
 				}
 				return 0
 			}
-			_, err = e.Msg.ModifyBid(e.Ctx, types.NewMsgModifyBid(0, bidder, 1, price, old.Coin))
+			// the signer may spell its address in the other accepted bech32 case: the listener must be told
+			// the bidder of the record that is written, not the message's spelling
+			signer := bidder
+			if nd.Pick("m.upper", 2) == 1 {
+				signer = userUpper(1)
+			}
+			_, err = e.Msg.ModifyBid(e.Ctx, types.NewMsgModifyBid(0, signer, 1, price, old.Coin))
 			if !veto {
 				nd.Assert("C17.site-modify-succeeds", err == nil)
 				c, ok := l.Last(method)
 				nd.Assert("C17.site-called-once", ok && l.Count(method) == 1)
 				if ok {
+					cur, _ := e.K.Bid.Get(e.Ctx, joinKey(0, 1))
+					nd.Assert("C17.site-bidder-is-the-recorded-one", c.S[0] == cur.Bidder)
 					nd.Assert("C17.site-real-values", nd.And(c.U[0] == 0, c.U[1] == 1, c.S[0] == bidder, c.D[0].Equal(price), c.I[0].Equal(old.Coin.Amount)))
 					nd.Assert("C17.site-before-commit", c.Seq == 0)
 				}
